@@ -433,7 +433,10 @@ func (s *trackStream) Recv() (*lnrpc.Payment, error) {
 	}
 	s.done = true
 	n := s.f.n
-	pre, err := n.w.LN.RecoverHash(n, s.hash)
+	pre, err := n.w.LN.RecoverHashCtx(s.ctx, n, s.hash)
+	if err == ErrRecoverDeadline {
+		return nil, status.Error(codes.DeadlineExceeded, "context deadline exceeded")
+	}
 	if err != nil {
 		switch err.Error() {
 		case "claim payment was not found":
